@@ -11,6 +11,7 @@ from units import u_fcall_rules as fcr
 F = 'src/alpha/analyzer/function_calls.rs'
 C = 'src/alpha/common.rs'
 T = 'src/alpha/typer.rs'
+E = 'src/alpha/error.rs'
 
 VT_FNS = ['can_coerce_address_into', 'equals', 'is_alias_of', 'can_be_variable', 'is_wellformed', 'is_wellformed_element',
           'is_wellformed_inner', 'can_be_element', 'for_string_literal']
@@ -30,14 +31,13 @@ def specs(pre, post):
 
 def build(u):
     u.load_contracts('contracts/u_fcall.vc')
-    import_contracts(u, 'contracts/u_mut.vc', ['fn can_hint_missing_address', 'impl PartialEq for Identifier :: fn eq'])
     u.notes += [
         'caller obligations (preconditions, spec fns pre_*): every non-builtin callee has been declared (else unreachable!()), no builtin is IncludeBytes (todo!()), '
         'no call argument is an automatic coercion of a poisoned expression and no index expression is an automatic coercion (Expression::location is unreachable!() on Poison), '
         'named array lengths have been resolved by the typer (no Deref of type ArrayWithNamedLength)',
         'trusted: derived Clone of Parameter/Identifier/Poison/Error/ValueType/Location is the identity; derived PartialEq of ValueType is teq (U-VT); '
         'std specs [T]::to_vec, Result::clone, Box::as_ref, Box ==; vstd HashMap model',
-        'contracts of can_hint_missing_address and Identifier::eq are imported verbatim from contracts/u_mut.vc, those of the value_type.rs predicates from contracts/u_vt.vc; all re-verified here',
+        'contracts of can_hint_missing_address and Identifier::eq carry the clause text of contracts/u_mut.vc, those of the value_type.rs predicates are imported verbatim from contracts/u_vt.vc; all re-verified here',
         'oracle decision: parentheses, automatic coercions and casts are transparent for "immediate argument of a call"; members of a structural literal, '
         'operands, array elements and index expressions are not arguments',
     ]
@@ -52,6 +52,7 @@ def build(u):
     u.emit(F, 'struct Analyzer', pub_fields=True)
     u.emit(F, 'struct Function', pub_fields=True)
     u.include('spec/u_fcall_spec.rs', kind='spec')
+    u.emit(E, 'impl From<Error> for Poison')
     u.emit(C, 'impl Expression', only=['location'])
     u.emit(T, 'trait Typed')
     u.emit(T, 'impl Typed for Expression')
@@ -60,7 +61,7 @@ def build(u):
     u.emit(F, 'fn analyze_builtin')
     u.emit(F, 'fn declare')
     R = [rules.r1_r2_map_collect(min_count=0),
-         rules.r3_option_map_if_present(['value', 'else_branch', 'return_value'])]
+         rules.r3_option_map_if_present(['value', 'else_branch']), fcr.fc2_field_option_map('self.return_value')]
     u.emit(F, 'trait Analyzable', pre=inject(
         '\tspec fn pre(self, a: Analyzer) -> bool;\n\tspec fn post(self, r: Self, a0: Analyzer, a1: Analyzer) -> bool;'))
     u.emit(F, 'impl Analyzable for Declaration', rules=R, pre=specs('pre_d(self, a.functions@)', 'ok_d(r, self, a0.functions@) && !a1.is_immediate_function_argument'))
